@@ -1,4 +1,5 @@
 import Solstat.Spec.ReviewedSignatures
+import Solstat.Spec.EntryText
 import Solstat.Report
 /-!
 # C11 / C12 oracles: reading a report back, as text
@@ -15,20 +16,10 @@ structure RB where
   sectionsSeen : List String := []
   malformed : List String := []
 
-/-- split `- <file>:<n>` at the last colon -/
+/-- split `- <file>:<n>` at the last colon: the character-level parser of `Spec/EntryText.lean`, for which the round
+trip with the renderer is a theorem (`Props/C11Text.lean`) -/
 def parseEntryLine (l : String) : Option (String × Nat) :=
-  if l.startsWith "- " then
-    let body := (l.drop 2).toString
-    match body.splitOn ":" with
-    | [] => none
-    | parts =>
-      match parts.getLast? with
-      | some last =>
-        (match last.toNat? with
-         | some n => some (":".intercalate parts.dropLast, n)
-         | none => none)
-      | none => none
-  else none
+  (parseEntryChars l.toList).map fun (f, n) => (String.ofList f, n)
 
 /-- recognise a pattern by its signature line, a list by `### Lines`, an entry by `- <file>:<int>`,
 the end of a list by the empty line -/
